@@ -3396,6 +3396,7 @@ namespace regex
                 {
                     ++i;
                     char c2 = regex_char(sv.substr(i), len);
+                    i += len;
                     cs.add_range(char_range{c1, c2});
                 }
                 else
